@@ -124,6 +124,20 @@ static inline void check_clauses(const Abs& pre, const Abs& post, const Ev& ev, 
             bool excused = is_exp(pre, p, now) || (is_erase && r.ok && pre.k[p] == k) || is_clear || evicting;
             VF_P(3, 1, excused);
         }
+#if T_TTL != 0
+    // "expiry of its TTL" is judged by the stored deadlines, so C03 also needs them to be right: a write may not leave a
+    // deadline earlier than now + the TTL in force, and no other entry's deadline may move earlier (an entry that would
+    // expire early is a live entry lost)
+    for (size_t q = 0; q < AMAX; ++q)
+        if (q < post.n)
+        {
+            size_t p = a_idx(pre, post.k[q]);
+            if (is_insert && r.ok && post.k[q] == k)
+                VF_P(3, 6, post.d[q] >= now + ttl_eff);
+            else if (p != NPOS)
+                VF_P(3, 7, post.d[q] >= pre.d[p]);
+        }
+#endif
     if (evicting)
     {
         VF_P(3, 2, n_gone == 1);      // exactly one previously resident entry removed
